@@ -83,7 +83,8 @@ func genC07(t *rapid.T) E3Case {
 		if rapid.Bool().Draw(t, "flushfault") {
 			op = "flush"
 		}
-		c.Faults = []mock.Fault{{Op: op, K: rapid.IntRange(1, 3).Draw(t, "fk"), Err: rapid.SampledFrom([]string{"plain", "timeout", "neterr"}).Draw(t, "ferr")}}
+		c.Faults = []mock.Fault{{Op: op, K: rapid.IntRange(1, 3).Draw(t, "fk"), Err: rapid.SampledFrom([]string{"plain", "timeout", "neterr"}).Draw(t, "ferr"),
+			Partial: op != "flush" && rapid.Bool().Draw(t, "partial")}}
 	}
 	return c
 }
